@@ -244,7 +244,7 @@ def gen_a85(rng):
             d = bytes(4 * rng.randint(0, 30)) + d
         return 'valid', a85_ref_encode(d)
     if r < 0.55:
-        return 'mut', mutate(rng, a85_ref_encode(bytes(rng.randrange(256) for _ in range(rng.randint(1, 40)))))[1]
+        return 'mut', mutate(rng, a85_ref_encode(bytes(rng.randrange(256) for _ in range(rng.randint(1, 40)))))[1][:20000]
     if r < 0.75:
         alpha = b'!"#stuvz~> \n\x00\xff' + bytes(range(33, 118))
         return 'alpha', bytes(rng.choice(alpha) for _ in range(rng.randint(0, 60)))
@@ -339,7 +339,7 @@ def gen_objstm(rng):
     if rng.random() < 0.95:
         ents.append(('First', I(first) if rng.random() < 0.95 else N('x')))
     if rng.random() < 0.1:
-        content = mutate(rng, content)[1]
+        content = mutate(rng, content)[1][:20000]
     return case('objstm', D(ents), XB(content))
 
 
@@ -395,7 +395,7 @@ def gen_cmap(rng):
                                                 b'<' + b'0041' * 257 + b'>', b'<00000000>', b'<d800>', b'<dfff>']) + s[m.end():]
         stream = s; kind = 'hexext'
     elif r < 0.62:
-        stream = mutate(rng, stream)[1]; kind = 'mut'
+        stream = mutate(rng, stream)[1][:20000]; kind = 'mut'
     codes = c15.mapped_codes(defs)
     text = b''
     for _ in range(rng.randint(0, 12)):
